@@ -197,7 +197,7 @@ class Hostile:
         hf = self.hf
         request = push or not self.tc
         base = gen_request_headers(hf, full=push) if request else gen_response_headers(hf)
-        k = 0 if valid_only else hf.weighted([4, 1, 1, 1, 2.5, 1, 1, 1, 1, 1, 0.5, 1, 0.5, 0.7, 1])
+        k = 0 if valid_only else hf.weighted([4, 1, 1, 1, 2.5, 1, 1, 1, 2, 1, 0.5, 1, 0.5, 0.7, 1])
         if k == 0:
             return base, "valid"
         if k == 1:
